@@ -139,6 +139,12 @@ def params? : Op → Option Params
 
 /-! ### declared structures (`in_structure()`, `out_structure()`) -/
 
+/-- leaf classes decorated `@square` / `@symmetric` / `@diagonal` / `@orthogonal`: the decorator assigns
+`cls.out_structure = cls.in_structure` (pinned against the source: `outStructureResolutionOk`) -/
+def squareLeaf : LeafCls → Bool
+  | .identity | .homothety | .diagonal | .hwp | .qurot | .toeplitz | .obsMatrix => true
+  | _ => false
+
 mutual
 def inS : Op → Struct
   | .leaf _ _ p => p.inS
@@ -150,7 +156,7 @@ def inS : Op → Struct
   | .cont _ .blockDiag td ops => Struct.nest td (inSList ops)
   | .cont _ .blockCol _ ops => inSHead ops
 def outS : Op → Struct
-  | .leaf _ _ p => p.outS
+  | .leaf _ c p => if squareLeaf c then p.inS else p.outS
   | .wrap _ .diagInv o => inS o
   | .wrap _ _ o => inS o
   | .comp _ ops => outSHead ops
